@@ -385,7 +385,7 @@ func init() {
 			"the server answers every request at once with <ok/>; the client-side reading of replies is not judged here (C02/C08)",
 			"whitespace-only element content counts as empty for the self-closing option (the option's documented intent)",
 			"trusted base: ncwire strict codec, ncsim stream grammar (1.0: one return after a message; 1.1: two), encoding/xml as well-formedness judge",
-			"arguments with a regexp-rewrite hazard (self-closed child with attributes last in a same-named parent; CDATA / comments containing '>' followed by an empty pair) are confined to the 'hazard' sessions",
+			"arguments whose CDATA sections or comments contain text that looks like an empty element pair (known finding: the regexp rewrite alters it) are confined to the 'hazard' sessions; ordinary arguments carry CDATA / comments without '<' ... '</' look-alikes",
 		},
 		Gen: Gen,
 		Run: func(c mon.Case) mon.Result {
